@@ -25,7 +25,9 @@ import time
 ROOT = os.path.dirname(os.path.dirname(os.path.abspath(__file__)))
 BUILD = os.path.join(ROOT, ".build")
 COQ = os.path.join(ROOT, "coq")
-REPO = "/repo"
+# the registered checks always run against /repo; VERIF_REPO exists so that tools/seedcheck.py can run a
+# scratch copy of this machinery against a scratch worktree carrying a seeded change
+REPO = os.environ.get("VERIF_REPO", "/repo")
 CFG = "alpha_g_verif"
 
 ENV = dict(os.environ)
